@@ -144,8 +144,11 @@ def run(R):
                     if s["k"] == "assign" and d["k"] in ("copy", "move") and s["pl"]["l"] == d["pl"]["l"] and s["rv"]["k"] == "use" and \
                             s["rv"]["op"]["k"] in ("copy", "move"):
                         pl = s["rv"]["op"]["pl"]
-                        nm = (place_fields(pl) or [ej.local_name(pl["l"])])[-1]
-                        conds.add((nm, pos))
+                        flds = place_fields(pl)
+                        if flds:
+                            conds.add((flds[-1], pos))
+                        elif 1 <= pl["l"] <= ej.arg_count and ej.local_ty(pl["l"]) == "bool":
+                            conds.add(("allow_outer", pos))
             if info and info[0] == "discr":
                 vn = F.variant_of_label(info[1], lab)
                 if lab == "otherwise" or vn == "None":
